@@ -160,6 +160,33 @@ func runC14(c c14Case) (bool, []string, error) {
 	if !bytes.Equal(out, kept) {
 		return nt, labels, fmt.Errorf("the bytes returned by Marshal changed when other schemas were marshalled afterwards:\n was %s\n now %s", kept, out)
 	}
+	// a schema document handed to NewFileWriter stays the caller's: the same bytes
+	// afterwards, and the header written carries a document for the same schema
+	for _, b := range [][]byte{[]byte(doc), out} {
+		was := string(b)
+		fw, err := avro.NewFileWriter(b, avro.CompressionNull)
+		if err != nil {
+			return nt, labels, fmt.Errorf("NewFileWriter rejects a schema document: %v\n%s", err, was)
+		}
+		var hdr bytes.Buffer
+		if err := fw.WriteHeader(&hdr); err != nil {
+			return nt, labels, fmt.Errorf("WriteHeader: %v", err)
+		}
+		if string(b) != was {
+			return nt, labels, fmt.Errorf("NewFileWriter/WriteHeader changed the caller's schema bytes:\n was %s\n now %s", was, b)
+		}
+		pf, err := ref.ParseFile(hdr.Bytes())
+		if err != nil {
+			return nt, labels, fmt.Errorf("header written for the document is not a valid container header: %v", err)
+		}
+		hs, err := ref.ParseSchema(pf.Meta["avro.schema"])
+		if err != nil {
+			return nt, labels, fmt.Errorf("avro.schema in the written header does not parse: %v\n%s", err, pf.Meta["avro.schema"])
+		}
+		if d := hs.Diff(c.Schema, ""); d != "" {
+			return nt, labels, fmt.Errorf("schema in the written header differs from the document: %s", d)
+		}
+	}
 	rp, err := ref.ParseSchema(out)
 	if err != nil {
 		return nt, labels, fmt.Errorf("reference parser rejects Marshal output %s: %v", out, err)
